@@ -1,96 +1,113 @@
 /-
   C11  Rounding picks one of the two adjacent unit boundaries by the documented rule.
-  (Layer 1: day / hour / minute on timestamps in closed form — later boundary exactly from 12:00, minute 30,
-   second 30 on — and the weekday-anchored week units on dates: up from the fifth day of the week.
-   Known findings: `round_century` on years divisible by 100 and Sunday-week rounding before 0001-01-04 are
-   stated as counterexample theorems at the end.)
+  All twelve units on dates and timestamps: the crate's code (tables, Julian-day arithmetic) equals the calendar-level
+  closed form `Spec.roundOf` (Lemmas/UnitsModel), and the closed form is "truncation or the next boundary, chosen from the
+  documented midpoint on; boundaries fixed; monotone except the ISO year" (Lemmas/UnitsSpec).
+  Two known findings are stated as theorems: D1 (`round_century` on years divisible by 100 – excluded from the main
+  theorem and characterised exactly by `round_century_deviation`) and D9 (Sunday-week rounding below 0001-01-04).
 -/
-import SqlDt.Props.C08
-import SqlDt.Props.C10
+import SqlDt.Lemmas.C11Base
+import SqlDt.Lemmas.UnitsModel
+import SqlDt.Lemmas.UnitsSpec
 namespace SqlDt.C11
-open SqlDt Gen
+open SqlDt Gen Spec
 
-/-- Moving to the next day: succeeds exactly when the next day is representable. -/
-theorem addDays_one (d : Int) (hd : isValidDate d) :
-    Date.addDays d 1 = if d + 1 ≤ 2932896 then .ok (d + 1) else .error .DateOutOfRange := by
-  have h := (isValidDate_iff d).1 hd
-  rw [C08.Date.addDays_exact d 1 hd (by decide)]
-  unfold C08.exactOr
-  by_cases h2 : d + 1 ≤ 2932896
-  · have : isValidDate (d + 1) := (isValidDate_iff _).2 (by omega)
-    simp only [this, h2, ↓reduceIte]
-  · have : ¬ isValidDate (d + 1) := fun x => by have := (isValidDate_iff _).1 x; omega
-    simp only [this, h2, ↓reduceIte]
+/-- DATE ROUNDING, every unit, every real date of years 1..9999 (except `century` on years divisible by 100, see below):
+    the crate returns `Spec.roundOf` when it is representable, `DateOutOfRange` otherwise. -/
+theorem date_round_partial (u : TUnit) (y m d : Int) (h : ValidYMD y m d) (hD1 : u = .century → y % 100 ≠ 0) :
+    Date.round u (dayNumber y m d) = inRangeDay (roundOf u (y, m, d) (dayNumber y m d)) :=
+  Lemmas.date_round_eq u y m d h hD1
 
-/-- Day rounding of a timestamp: the start of the next day exactly from 12:00 on, else the start of its own day;
-    an error exactly when the next day would be 10000-01-01. -/
+/-- The chosen value is the truncation or the NEXT unit boundary after the date – nothing else. -/
+theorem round_adjacent (u : TUnit) (y m d : Int) (h : IsDate y m d) :
+    roundOf u (y, m, d) (dayNumber y m d) = truncOf u (y, m, d) (dayNumber y m d) ∨
+    LeastGT (IsBoundary u) (dayNumber y m d) (roundOf u (y, m, d) (dayNumber y m d)) :=
+  Lemmas.roundOf_adjacent u y m d h
+
+/-- A date already on a boundary is returned unchanged. -/
+theorem round_fixed (u : TUnit) (y m d : Int) (h : IsDate y m d) (hb : IsBoundary u (dayNumber y m d)) :
+    roundOf u (y, m, d) (dayNumber y m d) = dayNumber y m d :=
+  Lemmas.roundOf_fixed u y m d h hb
+
+/-- The later boundary is chosen exactly from the documented midpoint on: year 51 of the century, 1 July, the 16th of the
+    quarter's second month, the 16th of the month, the fifth day of the week. -/
+theorem round_midpoints (y m d : Int) (h : IsDate y m d) :
+    let n := dayNumber y m d
+    (roundOf .century (y, m, d) n ≠ truncOf .century (y, m, d) n ↔ (y - 1) % 100 + 1 ≥ 51) ∧
+    (roundOf .year (y, m, d) n ≠ truncOf .year (y, m, d) n ↔ m ≥ 7) ∧
+    (roundOf .quarter (y, m, d) n ≠ truncOf .quarter (y, m, d) n ↔
+        ((m - 1) % 3 = 2 ∨ ((m - 1) % 3 = 1 ∧ d ≥ 16))) ∧
+    (roundOf .month (y, m, d) n ≠ truncOf .month (y, m, d) n ↔ d ≥ 16) ∧
+    (roundOf .isoWeek (y, m, d) n ≠ truncOf .isoWeek (y, m, d) n ↔ n - truncOf .isoWeek (y, m, d) n ≥ 4) ∧
+    (roundOf .sundayStartWeek (y, m, d) n ≠ truncOf .sundayStartWeek (y, m, d) n ↔
+        n - truncOf .sundayStartWeek (y, m, d) n ≥ 4) :=
+  Lemmas.roundOf_midpoints y m d h
+
+/-- Except for the ISO year, rounding is monotone. -/
+theorem round_mono (u : TUnit) (hu : u ≠ .isoYear) (y m d y' m' d' : Int) (h : IsDate y m d) (h' : IsDate y' m' d')
+    (hle : dayNumber y m d ≤ dayNumber y' m' d') :
+    roundOf u (y, m, d) (dayNumber y m d) ≤ roundOf u (y', m', d') (dayNumber y' m' d') :=
+  Lemmas.roundOf_mono u hu y m d y' m' d' h h' hle
+
+/-- Rounding fails exactly when the chosen boundary is not a representable date; it is never below the truncation, so a
+    failure on the low side can only come from a failing truncation (Sunday week, see D9). -/
+theorem round_fails_iff (u : TUnit) (y m d : Int) (h : ValidYMD y m d) (hD1 : u = .century → y % 100 ≠ 0) :
+    (∃ e, Date.round u (dayNumber y m d) = .error e) ↔
+      ¬ (MIN_DAY ≤ roundOf u (y, m, d) (dayNumber y m d) ∧ roundOf u (y, m, d) (dayNumber y m d) ≤ MAX_DAY) := by
+  rw [date_round_partial u y m d h hD1]
+  unfold inRangeDay
+  by_cases hr : MIN_DAY ≤ roundOf u (y, m, d) (dayNumber y m d) ∧ roundOf u (y, m, d) (dayNumber y m d) ≤ MAX_DAY
+  · rw [if_pos hr]; constructor
+    · rintro ⟨e, he⟩; cases he
+    · intro hn; exact absurd hr hn
+  · rw [if_neg hr]; constructor
+    · intro _; exact hr
+    · intro _; exact ⟨_, rfl⟩
+
+/-- TIMESTAMP ROUNDING, every unit, every valid timestamp: `(y, m, d)` is the calendar date of the deciding day – the
+    timestamp's own day for century/year/quarter/month/ISO year, the day containing `x + 12 h` for the four week units
+    and the day unit (i.e. up from noon of the fourth day / from 12:00); hour and minute round up from minute 30 /
+    second 30. Same exclusion as for dates. -/
+theorem ts_round_partial (u : TUnit) (x : Int) (hx : isValidTimestamp x) (y m d : Int)
+    (h : IsDate y m d ∧ 1 ≤ y ∧ y ≤ 10000) (hd : dayNumber y m d = decidingDay u x)
+    (hD1 : u = .century → y % 100 ≠ 0) :
+    Timestamp.round u x = roundTsOf u (y, m, d) x :=
+  Lemmas.ts_round_eq u x hx y m d h hd hD1
+
+/-- Oracle-style dates round as timestamps. -/
+theorem od_round (u : TUnit) (x : Int) : OracleDate.round u x = (Timestamp.round u x).map OracleDate.fromTimestamp := by
+  unfold OracleDate.round; cases Timestamp.round u x <;> rfl
+
+/-! ### Known finding D1 – what the crate does on the excluded inputs, for EVERY year divisible by 100 -/
+
+/-- For a year divisible by 100 (100, 200, …, 9900) `round_century` returns the START of that year's own century
+    (e.g. 2000-xx-xx ↦ 1901-01-01) although the documented choice – year 100 of a century is ≥ 51 – is the next one
+    (2001-01-01).  The existing test `timestamp::tests::test_round` pins this behaviour. -/
+theorem round_century_deviation (y m d : Int) (h : ValidYMD y m d) (hy : y % 100 = 0) (h9 : y ≤ 9900) :
+    Date.round .century (dayNumber y m d) = .ok (dayNumber (y - 99) 1 1) ∧
+    roundOf .century (y, m, d) (dayNumber y m d) = dayNumber (y + 1) 1 1 :=
+  Lemmas.date_round_century_dev y m d h hy h9
+
+/-- A witness, and the loss of monotonicity it causes. -/
+theorem roundCentury_counterexample :
+    Date.roundCentury 11109 = .ok (-25202) ∧ Date.roundCentury 10743 = .ok 11323 ∧ (10743 : Int) < 11109 := by decide
+
+/-! ### Known finding D9 – Sunday-week rounding fails below 0001-01-04 (the chosen boundary 0000-12-31 does not exist) -/
+theorem roundSundayWeek_counterexample :
+    Date.roundSundayStartWeek (-719162) = .error .DateOutOfRange ∧ Date.roundSundayStartWeek (-719159) = .ok (-719156) := by
+  decide
+
+/-! Layer 1 results kept from Lemmas/C11Base (closed form of day rounding on the microsecond line). -/
 theorem ts_round_day (ts : Int) (h : isValidTimestamp ts) :
     Timestamp.round .day ts =
       if ts % 86400000000 ≥ 43200000000 then
         (if ts / 86400000000 + 1 ≤ 2932896 then .ok ((ts / 86400000000 + 1) * 86400000000) else .error .DateOutOfRange)
-      else .ok (ts - ts % 86400000000) := by
-  have hv := (isValidTimestamp_iff ts).1 h
-  have ht : 0 ≤ ts % 86400000000 := by omega
-  have hd : isValidDate (ts / 86400000000) := (isValidDate_iff _).2 (by omega)
-  simp only [Timestamp.round, Timestamp.hour, Timestamp.date_eq, Timestamp.time_eq, Time.hour_eq _ ht]
-  by_cases h12 : ts % 86400000000 ≥ 43200000000
-  · have : ts % 86400000000 / 3600000000 ≥ 12 := by omega
-    simp only [this, h12, ↓reduceIte, addDays_one _ hd]
-    by_cases h2 : ts / 86400000000 + 1 ≤ 2932896
-    · simp [h2, bind, Except.bind, pure, Except.pure, Timestamp.new, USECONDS_PER_DAY]
-    · simp [h2, bind, Except.bind]
-  · have : ¬ ts % 86400000000 / 3600000000 ≥ 12 := by omega
-    simp only [this, h12, ↓reduceIte]
-    simp [bind, Except.bind, pure, Except.pure, Timestamp.new, USECONDS_PER_DAY]; omega
+      else .ok (ts - ts % 86400000000) := C11B.ts_round_day ts h
 
-/-- The result of day rounding, when there is one, is the truncation or the next day start, and a value
-    already on a boundary is unchanged. -/
-theorem ts_round_day_adjacent (ts b : Int) (h : isValidTimestamp ts) (hb : Timestamp.round .day ts = .ok b) :
-    (b = ts - ts % 86400000000 ∨ b = ts - ts % 86400000000 + 86400000000) ∧ (ts % 86400000000 = 0 → b = ts) := by
-  rw [ts_round_day ts h] at hb
-  split at hb
-  · split at hb
-    · cases hb; omega
-    · cases hb
-  · cases hb; omega
-
-/-- ISO-week rounding of a date: back to Monday for Mon..Thu, forward to the next Monday from Friday (the fifth
-    day of the week) on. -/
-theorem date_round_isoWeek (d : Int) (hd : isValidDate d) :
-    Date.roundIsoWeek d =
-      if (d + 3) % 7 ≤ 3 then Date.subDays d ((d + 3) % 7) else Date.subDays d ((d + 3) % 7 - 7) := by
-  unfold Date.roundIsoWeek Date.applyWeekTable
-  rw [C01.dayOfWeek_eq]
-  have : (d + 4) % 7 = 0 ∨ (d + 4) % 7 = 1 ∨ (d + 4) % 7 = 2 ∨ (d + 4) % 7 = 3 ∨ (d + 4) % 7 = 4 ∨
-      (d + 4) % 7 = 5 ∨ (d + 4) % 7 = 6 := by omega
-  rcases this with h | h | h | h | h | h | h <;> rw [h] <;>
-    simp [idx, ROUND_ISO_WEEK_TABLE, bind, Except.bind, pure, Except.pure] <;>
-    first
-    | (have e : (d + 3) % 7 = 0 := by omega
-       simp [e, C10.subDays_zero d hd])
-    | (have e : (d + 3) % 7 = 1 := by omega
-       simp [e])
-    | (have e : (d + 3) % 7 = 2 := by omega
-       simp [e])
-    | (have e : (d + 3) % 7 = 3 := by omega
-       simp [e])
-    | (have e : (d + 3) % 7 = 4 := by omega
-       simp [e])
-    | (have e : (d + 3) % 7 = 5 := by omega
-       simp [e])
-    | (have e : (d + 3) % 7 = 6 := by omega
-       simp [e])
-
-/-! ### Known findings as theorems about the model (the crate agrees with the model on these inputs) -/
-
-/-- D1: 2000-06-01 (day 11109, a year divisible by 100) is rounded back to 1901-01-01 (day −25202), while
-    1999-06-01 (day 10743) goes to 2001-01-01 (day 11323): not monotone, and year 100 of a century is ≥ 51. -/
-theorem roundCentury_counterexample :
-    Date.roundCentury 11109 = .ok (-25202) ∧ Date.roundCentury 10743 = .ok 11323 ∧ (10743 : Int) < 11109 := by decide
-
-/-- D9: Sunday-week rounding of 0001-01-01 fails although the input is nowhere near the maximum date. -/
-theorem roundSundayWeek_counterexample :
-    Date.roundSundayStartWeek (-719162) = .error .DateOutOfRange ∧ Date.roundSundayStartWeek (-719159) = .ok (-719156) := by
-  decide
+example : ValidYMD 2021 8 16 ∧ Date.round .quarter (dayNumber 2021 8 16) = .ok (dayNumber 2021 10 1) ∧
+    Date.round .quarter (dayNumber 2021 8 15) = .ok (dayNumber 2021 7 1) ∧
+    Date.round .century (dayNumber 1951 1 1) = .ok (dayNumber 2001 1 1) ∧
+    Date.round .century (dayNumber 9950 6 1) = .ok (dayNumber 9901 1 1) ∧
+    Date.round .century (dayNumber 9951 1 1) = .error .DateOutOfRange := by decide +kernel
 
 end SqlDt.C11
